@@ -632,6 +632,7 @@ func RunC06(env *Env, rep *Report) {
 	for _, t := range tpls {
 		cases = append(cases, c06Case(t))
 	}
+	cases = append(cases, c06SpelledNamesCase("text"), c06SpelledNamesCase("movement"), c06LongRunCase())
 	cases = append(cases, c06PairCase(), c06ClashCase("text"), c06ClashCase("movement"), c06ClashCaseAt("text", true), c06ClashCaseAt("movement", true), c06ClashCaseFull("text", false, true), c06ClashCaseFull("text", true, true), c06ClashCaseFull("movement", false, true))
 	rep.Technique = "symbolic execution of the real inline-text / moves() hoisting (go/ssa) with symbolic contents; the sharing pattern (which contents are equal) is enumerated by the solver through the parser's own set lookups (z3 seq + LIA)"
 	rep.Explanation = "Bounded symbolic verification, not a proof. Program templates placing inline texts and moves() in every position the property names (plain command, later argument, two in one command, inside if/else/while, switch, an autovar condition in an &&-chain and in a parenthesised group, a poryswitch case selected / not selected, inline map scripts incl. table rows, several scripts) are compiled by symbolic execution of the real code with the text contents as unconstrained SMT strings, string types none/ascii/braille/symbolic, step names symbolic. The parser's dedup lookups (inlineTextsSet / inlineMovementsSet) and the terminator test are decision points, so the solver enumerates every equality pattern among the contents and every 'already terminated' combination. Per path the oracle recomputes - forking on any equality the code did not decide - the expected label of every use (first appearance numbering per owning script, shared iff same final content and same type) and asserts: the command carries exactly that label; the label is defined exactly once with exactly that content and directive; nothing else is hoisted; no command is left with an empty argument. Two clash cases use String-sorted names so that 'user text/movement name = generated label' is found by the solver: it must be a compile error."
@@ -664,6 +665,80 @@ func RunC06(env *Env, rep *Report) {
 		return cs
 	})
 	env.RunJobs(len(cases), rep, func(w *Worker, i int) { w.RunCase(cases[i], rep) })
+}
+
+// c06SpelledNamesCase: two scripts whose names are SMT strings (so that one
+// may be spelled as a prefix / extension of the other, or like the other's
+// generated labels): each script's first inline text is <script>_Text_0
+// whatever the other script is called.
+func c06SpelledNamesCase(kind string) *Case {
+	atoms := &AtomTable{Coded: false}
+	a := atoms.New(ClsIdent, "script", "")
+	b := atoms.New(ClsIdent, "script", "")
+	cmd := atoms.New(ClsPlainCmd, "cmd", "")
+	var src string
+	var want func() []interp.Value
+	if kind == "text" {
+		src = fmt.Sprintf("script %s {\n  %s(\"one$\")\n}\nscript %s {\n  %s(\"two$\")\n}", a.Placeholder(), cmd.Placeholder(), b.Placeholder(), cmd.Placeholder())
+		want = func() []interp.Value {
+			la, lb := cat(a.Val, "_Text_0"), cat(b.Val, "_Text_0")
+			return []interp.Value{cat(a.Val, "::"), cat("\t", cmd.Val, " ", la), "\treturn", cat(b.Val, "::"), cat("\t", cmd.Val, " ", lb), "\treturn",
+				cat(la, ":"), "\t.string \"one$\"", cat(lb, ":"), "\t.string \"two$\""}
+		}
+	} else {
+		src = fmt.Sprintf("script %s {\n  %s(moves(walk_up))\n}\nscript %s {\n  %s(moves(walk_down))\n}", a.Placeholder(), cmd.Placeholder(), b.Placeholder(), cmd.Placeholder())
+		want = func() []interp.Value {
+			la, lb := cat(a.Val, "_Movement_0"), cat(b.Val, "_Movement_0")
+			return []interp.Value{cat(a.Val, "::"), cat("\t", cmd.Val, " ", la), "\treturn", cat(b.Val, "::"), cat("\t", cmd.Val, " ", lb), "\treturn",
+				cat(la, ":"), "\twalk_up", "\tstep_end", cat(lb, ":"), "\twalk_down", "\tstep_end"}
+		}
+	}
+	prog := &Program{Atoms: atoms, Tops: []interface{}{&TopRaw{Text: src}}}
+	name := "spelled-script-names-" + kind
+	cs := &Case{Name: "c06/" + name, Prog: prog, Variants: optVariants[:1], NonTrivial: true, Shape: c06Shape{Template: name}, MaxPaths: 64}
+	cs.Setup = func(x *OracleCtx) {
+		if !x.Replay {
+			x.C.Assume(fmt.Sprintf("(distinct %s %s)", a.Var, b.Var))
+			// keep the string queries small
+			x.C.Assume(fmt.Sprintf("(and (<= (str.len %s) 14) (<= (str.len %s) 14))", a.Var, b.Var))
+		}
+	}
+	cs.Oracle = func(x *OracleCtx) *Violation {
+		res := x.Res["opt"]
+		if res.Err.IsErr || res.Err.Panic != "" {
+			return &Violation{Sub: "accept", Msg: "rejected: " + interp.ToString(res.Err.Msg) + res.Err.Panic}
+		}
+		return expectLines(x, "numbering", "output", nonBlank(outputLines(res.Out, false)), want())
+	}
+	return cs
+}
+
+// c06LongRunCase: two moves() lists of one step that differ only in the
+// repeat count, 257 against 1 (counts that agree modulo 256): they are
+// different movements and get different labels.
+func c06LongRunCase() *Case {
+	atoms := &AtomTable{Coded: true}
+	a := atoms.New(ClsUserName, "script", "names")
+	cmd := atoms.New(ClsPlainCmd, "cmd", "cmds")
+	step := atoms.New(ClsIdent, "step", "", "step_end")
+	src := fmt.Sprintf("script %s {\n  %s(moves(%s * 257))\n  %s(moves(%s))\n}", a.Placeholder(), cmd.Placeholder(), step.Placeholder(), cmd.Placeholder(), step.Placeholder())
+	prog := &Program{Atoms: atoms, Tops: []interface{}{&TopRaw{Text: src}}}
+	name := "moves-repeat-257-vs-1"
+	cs := &Case{Name: "c06/" + name, Prog: prog, Variants: optVariants[:1], NonTrivial: true, Shape: c06Shape{Template: name}, MaxPaths: 16}
+	cs.Oracle = func(x *OracleCtx) *Violation {
+		res := x.Res["opt"]
+		if res.Err.IsErr || res.Err.Panic != "" {
+			return &Violation{Sub: "accept", Msg: "rejected: " + interp.ToString(res.Err.Msg) + res.Err.Panic}
+		}
+		l0, l1 := cat(a.Val, "_Movement_0"), cat(a.Val, "_Movement_1")
+		want := []interp.Value{cat(a.Val, "::"), cat("\t", cmd.Val, " ", l0), cat("\t", cmd.Val, " ", l1), "\treturn", cat(l0, ":")}
+		for i := 0; i < 257; i++ {
+			want = append(want, cat("\t", step.Val))
+		}
+		want = append(want, "\tstep_end", cat(l1, ":"), cat("\t", step.Val), "\tstep_end")
+		return expectLines(x, "sharing", "output", nonBlank(outputLines(res.Out, false)), want)
+	}
+	return cs
 }
 
 // c06PairCase: cmd(ascii"t0", "t1") - both labels on one line.
